@@ -20,6 +20,7 @@ ENGINE_CLASS = {
     "lhs": "LHSDeme",
     "sobol": "SobolDeme",
     "custom": "RandomSearchDeme",
+    "custom_ea": "TaggedEADeme",
 }
 
 
